@@ -338,11 +338,11 @@ class ReadMachine(HistoryMachine):
     def init(self, init):
         self.begin(init)
 
-    @rule(n=st.one_of(st.integers(1, 8), st.integers(1, 300), st.integers(1, 5000)))
+    @rule(n=st.one_of(st.integers(0, 8), st.integers(1, 300), st.integers(1, 5000)))
     def read(self, n):
         self.op({'op': 'read', 'n': n})
 
-    @rule(n=st.one_of(st.integers(1, 8), st.integers(1, 300), st.integers(1, 5000)))
+    @rule(n=st.one_of(st.integers(0, 8), st.integers(1, 300), st.integers(1, 5000)))
     def skip(self, n):
         self.op({'op': 'skip', 'n': n})
 
